@@ -284,7 +284,7 @@ def run_cli(desc):
             same = ja == jb
             if not same and not ordered and (lc.nonconsecutive_sells(base) or True):
                 # unordered distribution: per-sell-line legs may regroup (F16); compare merged view
-                same = merged_json_view(ja) == merged_json_view(jb)
+                same = json_views_close(merged_json_view(ja), merged_json_view(jb))
                 if same:
                     cnt["cli_f16_regroupings"] += 1
         else:
@@ -306,20 +306,52 @@ def run_cli(desc):
 
 
 def merged_json_view(j):
-    out = []
+    """JSON report -> structure with legs merged per (rule, acquisition date)."""
+    years = []
     for y in j["tax_years"]:
         ds = []
         for d in y["disposals"]:
-            legs = defaultdict(lambda: [Fraction(0), Fraction(0)])
+            legs = defaultdict(lambda: [Fraction(0), Fraction(0), 0])
             for m in d["matches"]:
-                k = (m["rule"], m.get("acquisition_date"))
+                k = (m["rule"], m.get("acquisition_date") or "")
                 legs[k][0] += Fraction(m["quantity"])
                 legs[k][1] += Fraction(m["allowable_cost"])
-            # costs are rounded per leg in JSON; compare quantities exactly, costs within a penny per merged leg
-            ds.append((d["date"], d["ticker"], d["quantity"], d["gross_proceeds"], d["proceeds"],
-                       sorted((k[0], k[1] or "", str(v[0])) for k, v in legs.items())))
-        out.append((y["period"], ds, y["total_gain"], y["total_loss"], y["net_gain"], y["disposal_count"]))
-    return [out, j["holdings"]]
+                legs[k][2] += 1
+            ds.append({"key": (d["date"], d["ticker"]), "q": Fraction(d["quantity"]), "gross": Fraction(d["gross_proceeds"]),
+                       "net": Fraction(d["proceeds"]), "legs": dict(legs)})
+        years.append({"period": y["period"], "disposals": ds, "count": y["disposal_count"],
+                      "totals": [Fraction(y[k]) for k in ("total_gain", "total_loss", "net_gain")]})
+    hold = {h["ticker"]: (Fraction(h["quantity"]), Fraction(h["total_cost"])) for h in j["holdings"]}
+    return years, hold
+
+
+def json_views_close(a, b):
+    """Equal up to what regrouped same-day sell lines can legitimately move: decimal residue in quantities
+    and one penny of display rounding per merged leg / per disposal in money strings."""
+    (ya, ha), (yb, hb) = a, b
+    qt = Fraction(1, 10 ** 12)
+    pen = Fraction(1, 100)
+    if [y["period"] for y in ya] != [y["period"] for y in yb]:
+        return False
+    for x, y in zip(ya, yb):
+        if x["count"] != y["count"] or [d["key"] for d in x["disposals"]] != [d["key"] for d in y["disposals"]]:
+            return False
+        n = max(1, len(x["disposals"]))
+        if any(abs(p - q) > pen * 2 * n for p, q in zip(x["totals"], y["totals"])):
+            return False
+        for d, e in zip(x["disposals"], y["disposals"]):
+            if abs(d["q"] - e["q"]) > qt or abs(d["gross"] - e["gross"]) > pen or abs(d["net"] - e["net"]) > pen:
+                return False
+            if set(d["legs"]) != set(e["legs"]):
+                return False
+            for k in d["legs"]:
+                if abs(d["legs"][k][0] - e["legs"][k][0]) > qt:
+                    return False
+                if abs(d["legs"][k][1] - e["legs"][k][1]) > pen * (d["legs"][k][2] + e["legs"][k][2]):
+                    return False
+    if set(ha) != set(hb):
+        return False
+    return all(abs(ha[k][0] - hb[k][0]) <= qt and abs(ha[k][1] - hb[k][1]) <= pen for k in ha)
 
 
 def run_shard(desc):
